@@ -444,59 +444,78 @@ func genOps(t *rapid.T, g *gtree) []Op {
 	return ops
 }
 
-func genCli(t *rapid.T, g *gtree) []CliOp {
+func genCli(t *rapid.T, g *gtree, min int) []CliOp {
 	var out []CliOp
-	n := rapid.IntRange(0, 7).Draw(t, "ncli")
+	n := rapid.IntRange(min, 7).Draw(t, "ncli")
 	for i := 0; i < n; i++ {
-		op := CliOp{Kind: rapid.SampledFrom([]string{"fstat", "fstat", "fwalk", "fopen"}).Draw(t, "cliop")}
-		op.Style = rapid.SampledFrom([]int{0, 0, 0, 1, 2}).Draw(t, "style")
-		want := rapid.OneOf(rapid.IntRange(0, 5), rapid.IntRange(14, 20), rapid.IntRange(30, 40), rapid.Just(40)).Draw(t, "clidepth")
-		names, at := g.descend(t, 0, want, true)
-		if hx.IsKnown(idSymStart) && rapid.IntRange(0, 3).Draw(t, "keep-known-boundary") != 0 {
-			// steer away from a symlink as 16th / 32nd element with more to follow
-			cut, pos := -1, 0
-			for j, nm := range names {
-				d := g.resolveDir(pos)
-				next := -1
-				for _, k := range g.kids[d] {
-					if bytes.Equal(g.nodes[k].Name, nm) {
-						next = k
-					}
-				}
-				if next < 0 {
-					break
-				}
-				pos = next
-				if (j == 15 || j == 31) && j+1 < len(names) && g.nodes[pos].Kind == "l" {
-					cut = j + 1
-					break
-				}
-			}
-			if cut > 0 {
-				hx.Excluded(idSymStart)
-				names = names[:cut]
-			}
-		}
-		switch rapid.IntRange(0, 3).Draw(t, "corrupt") {
-		case 0:
-			// one element replaced by a missing name (the rest stays)
-			if len(names) > 0 {
-				j := rapid.IntRange(0, len(names)-1).Draw(t, "corruptpos")
-				names = append([][]byte(nil), names...)
-				names[j] = g.missingName(t, -1)
-			} else {
-				names = [][]byte{g.missingName(t, g.resolveDir(at))}
-			}
-		case 1:
-			// a missing last element
-			if len(names) < 40 && rapid.Bool().Draw(t, "appendmissing") {
-				names = append(append([][]byte(nil), names...), g.missingName(t, g.resolveDir(at)))
-			}
-		}
-		op.Elems = names
-		out = append(out, op)
+		out = append(out, genCliOp(t, g))
 	}
 	return out
+}
+
+// genConc draws the concurrent phase: 2..6 goroutines that share the go9p
+// client of the sequential phase, each with 1..5 calls on paths of its own
+// drawing (any depth, existing or not).
+func genConc(t *rapid.T, g *gtree) [][]CliOp {
+	ng := rapid.IntRange(2, 6).Draw(t, "ngoroutines")
+	out := make([][]CliOp, ng)
+	for j := range out {
+		n := rapid.IntRange(1, 5).Draw(t, "nconcops")
+		for i := 0; i < n; i++ {
+			out[j] = append(out[j], genCliOp(t, g))
+		}
+	}
+	return out
+}
+
+func genCliOp(t *rapid.T, g *gtree) CliOp {
+	op := CliOp{Kind: rapid.SampledFrom([]string{"fstat", "fstat", "fwalk", "fopen"}).Draw(t, "cliop")}
+	op.Style = rapid.SampledFrom([]int{0, 0, 0, 1, 2}).Draw(t, "style")
+	want := rapid.OneOf(rapid.IntRange(0, 5), rapid.IntRange(14, 20), rapid.IntRange(30, 40), rapid.Just(40)).Draw(t, "clidepth")
+	names, at := g.descend(t, 0, want, true)
+	if hx.IsKnown(idSymStart) && rapid.IntRange(0, 3).Draw(t, "keep-known-boundary") != 0 {
+		// steer away from a symlink as 16th / 32nd element with more to follow
+		cut, pos := -1, 0
+		for j, nm := range names {
+			d := g.resolveDir(pos)
+			next := -1
+			for _, k := range g.kids[d] {
+				if bytes.Equal(g.nodes[k].Name, nm) {
+					next = k
+				}
+			}
+			if next < 0 {
+				break
+			}
+			pos = next
+			if (j == 15 || j == 31) && j+1 < len(names) && g.nodes[pos].Kind == "l" {
+				cut = j + 1
+				break
+			}
+		}
+		if cut > 0 {
+			hx.Excluded(idSymStart)
+			names = names[:cut]
+		}
+	}
+	switch rapid.IntRange(0, 3).Draw(t, "corrupt") {
+	case 0:
+		// one element replaced by a missing name (the rest stays)
+		if len(names) > 0 {
+			j := rapid.IntRange(0, len(names)-1).Draw(t, "corruptpos")
+			names = append([][]byte(nil), names...)
+			names[j] = g.missingName(t, -1)
+		} else {
+			names = [][]byte{g.missingName(t, g.resolveDir(at))}
+		}
+	case 1:
+		// a missing last element
+		if len(names) < 40 && rapid.Bool().Draw(t, "appendmissing") {
+			names = append(append([][]byte(nil), names...), g.missingName(t, g.resolveDir(at)))
+		}
+	}
+	op.Elems = names
+	return op
 }
 
 func genCase(t *rapid.T) *Case {
@@ -507,7 +526,18 @@ func genCase(t *rapid.T) *Case {
 	g := genTree(t)
 	c.Tree = g.nodes
 	c.Ops = genOps(t, g)
-	c.Cli = genCli(t, g)
+	// half of the cases end with a concurrent phase on the client that has just
+	// resolved the sequential paths (then there is at least one of those)
+	conc := rapid.Bool().Draw(t, "conc")
+	min := 0
+	if conc {
+		min = 1
+	}
+	c.Cli = genCli(t, g, min)
+	if conc {
+		c.Conc = genConc(t, g)
+		c.Rounds = rapid.IntRange(1, 3).Draw(t, "rounds")
+	}
 	return c
 }
 
@@ -525,6 +555,10 @@ func sampleOf(c *Case) interface{} {
 		ops = ops[:4]
 	}
 	s["ops_head"] = ops
+	if len(c.Conc) > 0 {
+		s["conc_goroutines"] = len(c.Conc)
+		s["conc_rounds"] = c.Rounds
+	}
 	if len(c.Cli) > 0 {
 		s["cli_head"] = map[string]interface{}{"op": c.Cli[0].Kind, "style": c.Cli[0].Style, "elements": len(c.Cli[0].Elems)}
 	}
